@@ -108,7 +108,7 @@ def build(seed, dc=False):
         n_ctrl[el] = int(ctrl.sum())
     eg = net.ext_grid
     pe, qe = net.res_ext_grid.p_mw.values, (net.res_ext_grid.q_mvar.values if not dc else np.zeros(len(eg)))
-    big = 3 * float(np.abs(net.res_bus.p_mw.values).sum() + 1.)
+    big = float(np.abs(net.res_bus.p_mw.values).sum() + 1.)
     eg["min_p_mw"], eg["max_p_mw"] = pe - big, pe + big
     eg["min_q_mvar"], eg["max_q_mvar"] = np.nan_to_num(qe) - big, np.nan_to_num(qe) + big
     if B(0.3):
